@@ -326,7 +326,10 @@ public:
         if (cache) {
             auto it = visited.find(x);
             if (it != visited.end()) {
-                result_ = it->second;
+                // an entry that maps a node to itself means "unchanged": hand back
+                // the node we were asked about, so that the callers' pointer
+                // comparisons behave as they do without the cache
+                result_ = (it->second == it->first) ? x : it->second;
             } else {
                 x->accept(*this);
                 insert(visited, x, result_);
